@@ -243,16 +243,16 @@ func main() {
 	}
 	nPairs := len(w.pool.Mods) * len(w.pool.Mods[0].Exps)
 	// verify: 5 of every 8 units are RSA and walk modulus × exponent; make sure the walk covers every pair at least twice
-	nVerify := max(r.N(900, 9000), (2*nPairs/5+1)*8)
+	nVerify := max(r.N(900, 40000), (2*nPairs/5+1)*8)
 	add("verify", nVerify, w.unitVerify)
-	add("everybyte", r.N(8, 48), w.unitEveryByte)
-	add("suffix", r.N(60, 600), w.unitSuffix)
-	add("rawrsa", max(r.N(400, 4000), 2*nPairs), w.unitRaw)
-	add("rrsig", r.N(900, 9000), w.unitRRSIG)
-	add("signed", r.N(3000, 40000), w.unitSigned)
-	add("keytag", r.N(500, 8000), w.unitKeyTag)
-	add("ds", r.N(512, 6000), w.unitDS)
-	add("vds", r.N(1200, 12000), w.unitVerifyDS)
+	add("everybyte", r.N(8, 240), w.unitEveryByte)
+	add("suffix", r.N(60, 2400), w.unitSuffix)
+	add("rawrsa", max(r.N(400, 16000), 2*nPairs), w.unitRaw)
+	add("rrsig", r.N(900, 36000), w.unitRRSIG)
+	add("signed", r.N(3000, 150000), w.unitSigned)
+	add("keytag", r.N(500, 24000), w.unitKeyTag)
+	add("ds", r.N(512, 24000), w.unitDS)
+	add("vds", r.N(1200, 48000), w.unitVerifyDS)
 
 	// heavier units first so the tail of the run is short
 	workers := runtime.GOMAXPROCS(0)
